@@ -1105,6 +1105,40 @@ theorem insert_facts {i : Nat} {ir ir' : IR} {b off repl last : Nat} {p : Patch}
 
 /-! ### the loop -/
 
+theorem adoptPatchBlocks_touches (ir : IR) (p : Patch) (f : Nat) :
+    (ir.adoptPatchBlocks p f).blocks = ir.blocks ∧ (ir.adoptPatchBlocks p f).intervals = ir.intervals ∧
+      (ir.adoptPatchBlocks p f).next = ir.next := by
+  unfold IR.adoptPatchBlocks
+  refine ⟨?_, ?_, ?_⟩
+  · apply foldl_blocks; intro i b; split
+    · split <;> rfl
+    · rfl
+  · apply foldl_intervals; intro i b; split
+    · split <;> rfl
+    · rfl
+  · apply foldl_next; intro i b; split
+    · split <;> rfl
+    · rfl
+
+/-- what the loop's insertion step returns: the result of `insert`, up to function tables -/
+theorem loopInsert_ok {ir ir' : IR} {func : Option Nat} {ab : Block} {a ao repl last : Nat} {p : Patch}
+    (h : ir.loopInsert func ab a ao repl p = .ok (ir', last)) :
+    ∃ ir1, ir.insert a ao repl p = .ok (ir1, last) ∧ ir'.blocks = ir1.blocks ∧ ir'.intervals = ir1.intervals ∧
+      ir'.next = ir1.next := by
+  unfold IR.loopInsert at h
+  split at h
+  · cases h
+  · rename_i ir1 l1 hins
+    split at h
+    · split at h
+      · injection h with h; injection h with h1 h2; subst h1; subst h2
+        obtain ⟨hb, hi, hn⟩ := adoptPatchBlocks_touches ir1 p _
+        exact ⟨ir1, hins, hb, hi, hn⟩
+      · injection h with h; injection h with h1 h2; subst h1; subst h2
+        exact ⟨ir1, hins, rfl, rfl, rfl⟩
+    · injection h with h; injection h with h1 h2; subst h1; subst h2
+      exact ⟨ir1, hins, rfl, rfl, rfl⟩
+
 theorem insert_ok_bi {ir ir' : IR} {b off repl last : Nat} {p : Patch} {blk : Block}
     (h : ir.insert b off repl p = .ok (ir', last)) (hb : ir.block? b = some blk) : blk.bi ≠ none := by
   intro hn
@@ -1130,7 +1164,7 @@ theorem delete_ok_bi {ir ir' : IR} {b off len : Nat} {px : Bool} {r : Option Nat
 /-- **the blocks of every patch are new objects when the patch is inserted**: their ids name
 no block of the IR at that moment (the model names objects by numbers; the real patch
 consists of freshly created `gtirb.ByteBlock`s) -/
-def NewBlocks (origOff : Nat) : IR → Option Nat → Int → List Mod → Prop
+def NewBlocks (origOff : Nat) (func : Option Nat) : IR → Option Nat → Int → List Mod → Prop
   | _, _, _, [] => True
   | _, none, _, _ :: _ => True
   | ir, some a, total, m :: ms =>
@@ -1140,20 +1174,20 @@ def NewBlocks (origOff : Nat) : IR → Option Nat → Int → List Mod → Prop
       match m with
       | .ins o repl p =>
         (∀ c ∈ p.text.blocks.map (·.id), ir.block? c = none) ∧
-        ∀ ir' last, ir.insert a (actualOffset origOff ab total o).toNat repl p = .ok (ir', last) →
-          NewBlocks origOff ir' (some last) (total + (p.text.data.length : Int) - (repl : Int)) ms
+        ∀ ir' last, ir.loopInsert func ab a (actualOffset origOff ab total o).toNat repl p = .ok (ir', last) →
+          NewBlocks origOff func ir' (some last) (total + (p.text.data.length : Int) - (repl : Int)) ms
       | .del o len px =>
         ∀ ir' r, ir.delete a (actualOffset origOff ab total o).toNat len px = .ok (ir', r) →
-          NewBlocks origOff ir' r (total - (len : Int)) ms
+          NewBlocks origOff func ir' r (total - (len : Int)) ms
 
 /-- **The loop of `_apply_modifications` is the running-offset splice.**  Whatever blocks
 `insert` and `delete` return along the way, request `k` is carried out at interval position
 `block.offset + offset_k + total_insert_len`, every one in the byte interval of the block the
 requests were registered for, and no other interval the module had changes. -/
-theorem applyMods_bytes (origOff i : Nat) : ∀ (ms : List Mod) (ir ir' : IR) (actual : Option Nat) (total : Int)
-    (cur : List Nat),
-    IR.applyMods origOff ir actual total ms = .ok ir' →
-    (∀ a, actual = some a → In i ir a) → IdsBelow ir → NewBlocks origOff ir actual total ms →
+theorem applyMods_bytes (origOff i : Nat) (func : Option Nat) : ∀ (ms : List Mod) (ir ir' : IR) (actual : Option Nat)
+    (total : Int) (cur : List Nat),
+    IR.applyMods origOff func ir actual total ms = .ok ir' →
+    (∀ a, actual = some a → In i ir a) → IdsBelow ir → NewBlocks origOff func ir actual total ms →
     ir.bytesOf i = some cur →
     ir'.bytesOf i = some (seqSplice origOff cur total (ms.map Mod.toLEdit)) ∧
       ∀ j, j ≠ i → ir.bytesOf j ≠ none → ir'.bytesOf j = ir.bytesOf j := by
@@ -1190,21 +1224,29 @@ theorem applyMods_bytes (origOff i : Nat) : ∀ (ms : List Mod) (ir ir' : IR) (a
           simp only [Mod.off] at h hao
           split at h
           · cases h
-          · rename_i ir1 last hins
+          · rename_i ir1 last hloop
             obtain ⟨hfresh, hnext⟩ := hnew
+            obtain ⟨ir0, hins, hlb, hli, hln⟩ := loopInsert_ok hloop
             have hbi : ab.bi = some i := by
               rcases habi with hh | hh
               · exact hh
               · exact absurd hh (insert_ok_bi hins hab)
-            obtain ⟨hb1, hb2⟩ := insert_bytes hins hab hbi hiv
-            obtain ⟨hI1, hin1⟩ := insert_facts hins hin hI (fun c hc blk hblk => by rw [hfresh c hc] at hblk; cases hblk)
+            obtain ⟨hb1', hb2'⟩ := insert_bytes hins hab hbi hiv
+            obtain ⟨hI0, hin0⟩ := insert_facts hins hin hI (fun c hc blk hblk => by rw [hfresh c hc] at hblk; cases hblk)
+            -- the function-table step on top of `insert` changes neither bytes, blocks nor the counter
+            have hb1 : ir1.bytesOf i = some (spliceBytes iv.bytes (ab.off + (actualOffset origOff ab total o).toNat) repl p.text.data) := by
+              rw [bytesOf_congr hli]; exact hb1'
+            have hb2 : ∀ j, j ≠ i → ir.bytesOf j ≠ none → ir1.bytesOf j = ir.bytesOf j := by
+              intro j hj hne; rw [bytesOf_congr hli]; exact hb2' j hj hne
+            have hI1 : IdsBelow ir1 := hI0.mono (ids_of_blocks hlb) (by rw [hln]; exact Nat.le_refl _)
+            have hin1 : In i ir1 last := (Keeps.of_blocks hlb).in hin0
             have hpos : ab.off + (actualOffset origOff ab total o).toNat =
                 posOf origOff total (Mod.toLEdit (.ins o repl p)) := by
               unfold posOf actualOffset Mod.toLEdit at *
               simp only [Mod.off]
               omega
             obtain ⟨r1, r2⟩ := ih ir1 ir' (some last) _ _ h (fun a' ha' => by injection ha' with ha'; subst ha'; exact hin1)
-              hI1 (hnext ir1 last hins) hb1
+              hI1 (hnext ir1 last hloop) hb1
             constructor
             · rw [r1]
               simp only [List.map_cons, seqSplice]
